@@ -104,8 +104,17 @@ def bridge_source(structs):
             out.append("        pub fn take%d<'a>(&self, s: S%d<'a>) -> u8 { 0 }\n        pub fn give%d<'a>(&'a self) -> S%d<'a> { unimplemented!() }\n" % (k, k, k, k))
         else:
             out.append("        pub fn take%d(&self, s: S%d) -> u8 { 0 }\n        pub fn give%d(&self) -> S%d { unimplemented!() }\n" % (k, k, k, k))
+    for j, inner in enumerate(opt_payloads(structs)):
+        out.append("        pub fn opt%d(&self, x: Option<%s>) -> Option<%s> { x }\n" % (j, rs_field_ty(structs, inner, False), rs_field_ty(structs, inner, False)))
     out.append("    }\n}\n")
     return "".join(out)
+
+
+def opt_payloads(structs):
+    """payloads for Option<T> parameters/returns: a few primitives, the enum, and the lifetime-free structs"""
+    out = [("prim", p) for p in ("u8", "i16", "u32", "i64", "f32", "f64", "bool", "DiplomatChar", "usize")] + [("enum",)]
+    out += [("struct", i) for i, st in enumerate(structs) if not has_lt(structs, st)][:6]
+    return out
 
 
 # ------------------------------------------------------------------------------------------------ values
@@ -256,6 +265,22 @@ def mirror_source(structs, values):
         vargs = ", ".join("hex(&%s)" % struct_lit(structs, k, v) for v in values[k])
         out.append("    println!(\"\\\"S%d\\\": {{\\\"size\\\": {}, \\\"align\\\": {}, \\\"fields\\\": [%s], \\\"values\\\": [%s]}}%s\", size_of::<M%d>(), align_of::<M%d>(), %s, %s);\n" % (
             k, offs, vals, "," if k + 1 < len(structs) else "", k, k, args, vargs))
+    out.append("    println!(\"}}\");\n}\n")
+    return "".join(out)
+
+
+def opt_mirror_source(structs, ovalues):
+    """a second tiny program: bytes of Opt<T> values for the option-parameter leg"""
+    base = mirror_source(structs, [[] for _ in structs])
+    head = base[:base.index("fn main() {")]
+    out = [head, "fn main() {\n    println!(\"{{\");\n"]
+    pls = opt_payloads(structs)
+    for j, inner in enumerate(pls):
+        ty = "Opt<%s>" % mty(structs, inner)
+        vals = ", ".join("\\\"{}\\\"" for _ in ovalues[j])
+        vargs = ", ".join("hex(&(%s))" % ("Opt::<%s>::none()" % mty(structs, inner) if v is None else "Opt::some(%s)" % rs_lit(structs, inner, v[1])) for v in ovalues[j])
+        out.append("    println!(\"\\\"O%d\\\": {{\\\"size\\\": {}, \\\"align\\\": {}, \\\"inner_size\\\": {}, \\\"values\\\": [%s]}}%s\", size_of::<%s>(), align_of::<%s>(), size_of::<%s>(), %s);\n" % (
+            j, vals, "," if j + 1 < len(pls) else "", ty, ty, mty(structs, inner), vargs))
     out.append("    println!(\"}}\");\n}\n")
     return "".join(out)
 
@@ -513,7 +538,27 @@ for (const c of data.cases) {
   } catch (e) { rec.error = String(e && e.stack || e).slice(0, 600); }
   results.push(rec);
 }
-console.log(JSON.stringify(results));
+const oresults = [];
+for (const c of data.optcases) {
+  const rec = { id: c.id };
+  try {
+    log.allocs.length = 0; log.frees.length = 0; log.calls.length = 0;
+    ctl.onCall = (name, args) => { if (name === "Hub_opt" + c.j) {
+        rec.args = args.map(a => typeof a === "bigint" ? "big:" + a.toString() : (a === undefined ? "undefined" : a));
+        const retptr = args[0]; const m = mem();
+        for (let i = 0; i < c.size; i++) m[retptr + i] = parseInt(c.bytes.substr(2 * i, 2), 16);
+        rec.retptr = retptr;
+        const x = args[2];
+        if (data.abi === "spec" && typeof x === "number" && log.allocs.some(a => a[0] === x)) { rec.ptr = x; rec.bytes = hex(x, c.size); }
+      } return 0; };
+    const value = eval("(" + c.js + ")");
+    const Cls = c.struct ? (await import("./" + c.struct + ".mjs"))[c.struct] : null;
+    const got = hub["opt" + c.j](Cls && value !== null ? new Cls(value) : value);
+    rec.got = canon(got); rec.allocs = log.allocs.slice(); rec.frees = log.frees.slice();
+  } catch (e) { rec.error = String(e && e.stack || e).slice(0, 500); }
+  oresults.push(rec);
+}
+console.log(JSON.stringify({ structs: results, options: oresults }));
 '''
 
 
@@ -645,7 +690,7 @@ def main(tier, seed):
     per = 14
     nval = 4
     common.build_tool()
-    stats = {"structs": 0, "values": 0, "write_checks_spec": 0, "flatten_checks_legacy": 0, "read_checks": 0, "receive_buffers_checked": 0}
+    stats = {"structs": 0, "values": 0, "write_checks_spec": 0, "flatten_checks_legacy": 0, "read_checks": 0, "receive_buffers_checked": 0, "option_param_checks": 0}
     shapes = set()
 
     def one(bi):
@@ -657,6 +702,18 @@ def main(tier, seed):
         for k, fields in enumerate(structs):
             ctx = {"ptr": 64 * k}
             values.append([[gen_value(rng, structs, f, ctx) for f in fields] for _ in range(nval)])
+        pls = opt_payloads(structs)
+        ovalues = []
+        for inner in pls:
+            ctx = {"ptr": 0}
+            ovalues.append([None] + [("some", gen_value(rng, structs, inner, ctx)) for _ in range(3)])
+        open(os.path.join(d, "omirror.rs"), "w").write(opt_mirror_source(structs, ovalues))
+        rc, o, e = run(["rustc", "--edition", "2021", "-O", "-o", os.path.join(d, "omirror"), os.path.join(d, "omirror.rs")], timeout=300)
+        if rc != 0:
+            res["inconc"].append("option mirror does not compile: " + e[:400])
+            return res
+        rc, o, e = run([os.path.join(d, "omirror")], timeout=60)
+        olayout = json.loads(o)
         # ground truth: rustc lays the mirrors out
         open(os.path.join(d, "mirror.rs"), "w").write(mirror_source(structs, values))
         rc, o, e = run(["rustc", "--edition", "2021", "-O", "-o", os.path.join(d, "mirror"), os.path.join(d, "mirror.rs")], timeout=300)
@@ -707,14 +764,22 @@ def main(tier, seed):
                                   "bytes": lay["values"][j], "slicefields": [[off, esz] for off, esz, p, f in sps],
                                   "slicedata": [[off, slice_bytes(f, value_at(v, p)).hex()] for off, esz, p, f in sps]})
             fieldnames = {"S%d" % k: {"f%d" % i: 1 for i in range(len(f))} for k, f in enumerate(structs)}
-            json.dump({"abi": abi_name, "cases": cases, "fieldnames": fieldnames}, open(os.path.join(out, "vf_data.json"), "w"))
+            optcases = []
+            for j, inner in enumerate(pls):
+                ol = olayout["O%d" % j]
+                for vi, v in enumerate(ovalues[j]):
+                    optcases.append({"id": "O%d#%d" % (j, vi), "j": j, "size": ol["size"], "bytes": ol["values"][vi],
+                                     "js": "null" if v is None else js_lit(structs, inner, v[1]), "struct": "S%d" % inner[1] if inner[0] == "struct" else None})
+            json.dump({"abi": abi_name, "cases": cases, "optcases": optcases, "fieldnames": fieldnames}, open(os.path.join(out, "vf_data.json"), "w"))
             open(os.path.join(out, "diplomat-wasm.mjs"), "w").write(STUB)
             open(os.path.join(out, "vf_driver.mjs"), "w").write(DRIVER)
             rc, o, e = run(["node", os.path.join(out, "vf_driver.mjs")], timeout=120)
             if rc != 0:
                 res["inconc"].append("node driver failed (%s): %s" % (abi_name, e[-400:]))
                 continue
-            recs = {r["id"]: r for r in json.loads(o.strip().splitlines()[-1])}
+            allrecs = json.loads(o.strip().splitlines()[-1])
+            recs = {r["id"]: r for r in allrecs["structs"]}
+            orecs = {r["id"]: r for r in allrecs["options"]}
             for k, fields in enumerate(structs):
                 lay = layout["S%d" % k]
                 if abi_name == "spec":
@@ -831,6 +896,69 @@ def main(tier, seed):
                         res["viol"].append((cid, abi_name, "Rust -> JS: reading rustc's bytes gives %s, the stored value is %s" % (json.dumps(r.get("give"))[:300], json.dumps(expj)[:300]), w, tag))
                     if not direct_ret and (not ga or ga[0][1] != lay["size"] or ga[0][2] != lay["align"]):
                         res["viol"].append((cid, abi_name, "Rust -> JS: receive buffer allocated as (size, align) = %s, rustc says (%d, %d)" % (ga[0][1:] if ga else None, lay["size"], lay["align"]), w))
+            # ---- Option<T> parameters and returns
+            for j, inner in enumerate(pls):
+                ol = olayout["O%d" % j]
+                isz = ol["inner_size"]
+                for vi, v in enumerate(ovalues[j]):
+                    r = orecs["O%d#%d" % (j, vi)]
+                    ty = rs_field_ty(structs, inner, False)
+                    w = {"abi": abi_name, "method": "fn opt%d(&self, x: Option<%s>) -> Option<%s>" % (j, ty, ty), "value_js": "null" if v is None else js_lit(structs, inner, v[1]),
+                         "rustc_layout": {k2: ol[k2] for k2 in ("size", "align", "inner_size")}, "rustc_bytes": ol["values"][vi], "dir": out}
+                    res["st"]["option_param_checks"] += 1
+                    if "error" in r:
+                        res["viol"].append(("O%d#%d" % (j, vi), abi_name, "generated JS throws: " + r["error"][:300], w, "option-param" if abi_name == "spec" else None))
+                        continue
+                    ref = ol["values"][vi]
+                    if abi_name == "spec":
+                        if "bytes" not in r:
+                            res["viol"].append(("O%d#%d" % (j, vi), abi_name, "JS -> Rust: Option<%s> is passed indirectly by rustc (pointer to {payload, is_ok}); the generated JS passes %r as that argument" % (
+                                ty, (r.get("args") or [None, None, None])[2] if len(r.get("args") or []) > 2 else r.get("args")), dict(w, js_args=r.get("args")), "option-param"))
+                        else:
+                            errs = []
+                            if r["bytes"][2 * isz:2 * isz + 2] != ref[2 * isz:2 * isz + 2]:
+                                errs.append("is_ok byte at offset %d is %s, rustc has %s" % (isz, r["bytes"][2 * isz:2 * isz + 2], ref[2 * isz:2 * isz + 2]))
+                            if v is not None and inner[0] != "struct" and r["bytes"][:2 * isz] != ref[:2 * isz]:
+                                errs.append("payload bytes are %s, rustc has %s" % (r["bytes"][:2 * isz], ref[:2 * isz]))
+                            if v is not None and inner[0] == "struct":
+                                errs += compare_bytes(structs, inner[1], layout, v[1], r["bytes"], ref)
+                            al = [a for a in r["allocs"] if a[0] == r["ptr"]]
+                            if not al or al[0][1] < ol["size"] or al[0][2] != ol["align"]:
+                                errs.append("argument buffer allocated as (size, align) = %s, the option needs (%d, %d)" % (al[0][1:] if al else None, ol["size"], ol["align"]))
+                            for m in errs[:2]:
+                                res["viol"].append(("O%d#%d" % (j, vi), abi_name, "JS -> Rust: Option<%s>: %s" % (ty, m), dict(w, js_bytes=r["bytes"]), "option-param"))
+                    else:
+                        # legacy: union as inner_size/align slots of `align` bytes, then the flag, then i8 padding
+                        import struct as st_
+                        raw = bytes.fromhex(ref)
+                        al_ = ol["align"]
+                        exp = [int.from_bytes(raw[q:q + al_], "little") for q in range(0, isz, al_)] + [raw[isz]] + [0] * (ol["size"] - isz - 1)
+                        got = (r.get("args") or [])[2:]
+                        gnorm = []
+                        for gv in got:
+                            g = int(gv[4:]) if isinstance(gv, str) and gv.startswith("big:") else (int(gv) if isinstance(gv, bool) else gv)
+                            gnorm.append(g)
+                        ok = len(gnorm) == len(exp)
+                        if ok and v is not None:
+                            for q, (g, e_) in enumerate(zip(gnorm, exp)):
+                                mask = (1 << (8 * (al_ if q < isz // al_ else 1))) - 1
+                                if not isinstance(g, (int, float)) or (int(g) & mask) != e_:
+                                    ok = q >= isz // al_ + 1   # padding values do not matter
+                                    if not ok:
+                                        break
+                        elif ok:
+                            ok = isinstance(gnorm[isz // al_], (int, float)) and int(gnorm[isz // al_]) == 0
+                        if not ok:
+                            res["viol"].append(("O%d#%d" % (j, vi), abi_name, "JS -> Rust: Option<%s> flattened as %s, the legacy ABI takes %s (union slots, flag, i8 padding)" % (ty, got, exp), w))
+                    # return direction
+                    expj = None if v is None else js_expected(structs, inner, v[1])
+                    if not same(r.get("got"), expj):
+                        res["viol"].append(("O%d#%d" % (j, vi), abi_name, "Rust -> JS: Option<%s> read back as %s, the stored value is %s" % (ty, json.dumps(r.get("got"))[:200], json.dumps(expj)[:200]), w))
+                    ga = [a for a in r.get("allocs", []) if a[0] == r.get("retptr")]
+                    # observation, not part of the property (which speaks of structs): the backend sizes this buffer as payload + 1 without
+                    # padding to the alignment (Option<u32>: 5 bytes for an 8-byte value); only the part JS reads is required here
+                    if not ga or ga[0][1] < isz + 1 or ga[0][2] != ol["align"]:
+                        res["viol"].append(("O%d#%d" % (j, vi), abi_name, "Rust -> JS: Option<%s> receive buffer allocated as %s, too small or misaligned for (payload %d + flag, align %d)" % (ty, ga[0][1:] if ga else None, isz, ol["align"]), w))
         return res
 
     def same(a, b):
@@ -863,6 +991,8 @@ def main(tier, seed):
             if tag == "scalar-struct-indirect":
                 fk = w["rust"].split("{")[1]
                 key = {"signature": "struct whose only scalar is an enum or an opaque pointer is treated as an aggregate", "single_field_kind": "enum" if "En" in fk else ("opaque" if "Op" in fk else ("nested" if "S" in fk else "other"))}
+            if tag == "option-param":
+                key = {"signature": "spec ABI: Option<T> parameters (optionToBufferForCalling)"}
             if tag == "scalar-bool":
                 key = {"signature": "single-bool struct returned by value is read back as 0/1 instead of false/true"}
             if tag == "large-u32":
@@ -870,7 +1000,7 @@ def main(tier, seed):
             if "option flag byte" in msg and "(None)" in msg and "JS left cd" in msg:
                 key = {"signature": "spec ABI: None option field leaves the flag byte unwritten"}
             chk.violation("b%d_%s_%s" % (bi, cid.replace("#", "v"), abi), "js.abi=%s struct %s: %s" % (abi, cid, msg), w, key=key)
-    chk.evaluations = stats["write_checks_spec"] + stats["flatten_checks_legacy"] + stats["read_checks"] + stats["receive_buffers_checked"]
+    chk.evaluations = stats["option_param_checks"] + stats["write_checks_spec"] + stats["flatten_checks_legacy"] + stats["read_checks"] + stats["receive_buffers_checked"]
     chk.distinct = shapes
     chk.rule = ("seeded structs with 1-8 fields over 14 primitives, an enum with negative/extreme discriminants, opaque pointers (optional and not), slices of "
                 "u8/u16/i32/f64 and UTF-8/UTF-16 strings, nested structs (two levels) and DiplomatOption<prim|enum|struct>, any field order; 4 values per struct "
